@@ -235,7 +235,18 @@ def run_case(scheme, cid, cfg, cls, db, acc, rng, use_module_default=False):
         tk = tokens[w] if rng.random() < 0.7 else scheme_obj.TokenGen(key, w)
         tk_before = tk.serialize()
         try:
-            got = norm(scheme, scheme_obj.Search(edb, tk).get_result_list())
+            raw_result = scheme_obj.Search(edb, tk).get_result_list()
+            got = norm(scheme, raw_result)
+            # the caller owns the answer it was handed: it extends / empties it (union queries, paging); no later answer
+            # may be affected (an answer object shared between searches would be)
+            try:
+                if isinstance(raw_result, list):
+                    raw_result.extend([b"\xee" * 8, b"\xdd" * 8])
+                elif isinstance(raw_result, set):
+                    raw_result.update({b"\xee" * 8, b"\xdd" * 8})
+                acc.count("answers_modified_by_the_caller")
+            except Exception:
+                pass
         except Exception as e:
             acc.violation(f"{short}:history-search-raised:{exc_site(e)}",
                           f"search #{pos} in a history raised {type(e).__name__}: {e} although the single search "
